@@ -93,7 +93,10 @@ CTX = [
 
 # --- TU: template universes behind the page ("with arbitrary template pages")
 TU_BODIES = ["{{{1}}}", "{{{1|d}}}", "x|y", "\n* a", "{|", "|}", "|-\n| c", "</div>", "<ref>", "'''", "[[", "{{T}}", "{{U}}",
-             "<noinclude>n</noinclude>i", "<includeonly>", "", "{{{1", "}}", "<nowiki>", "=="]
+             "<noinclude>n</noinclude>i", "<includeonly>", "", "{{{1", "}}", "<nowiki>", "==",
+             # recursion routed through tag extensions whose body is expanded and parsed again
+             "<ref>{{T}}</ref>", "a<ref>{{U}}</ref>", "<poem>{{T}}</poem>", "<gallery>\nFile:A.png|{{T}}\n</gallery>", "<ref>{{E|{{T}}}}</ref>",
+             "<pages index=a from=1 to=3/>{{T}}", "<imagemap>\nImage:A.png\ndefault [[{{T}}]]\n</imagemap>"]
 
 
 def template_universe(body):
